@@ -2,6 +2,38 @@
 from vlib import classlemmas, runner
 
 
+def absent_through_unions(chk, tier):
+    """the parse clause where the class is reached through a union that cattrs itself disambiguates (no hand-written
+    hook): with the null-admitting / literal member absent the value still parses - the remaining members decide the
+    alternative (documents that stay valid for the root when such members may be absent; XH on the real converter)"""
+    from vlib import leafrt, xh
+
+    cases = leafrt.special_absent_cases()
+    ls = [xh.Lemma("abs_%s" % rc.id, [("k", "int")], ["return R.absent_accepts(%r, k)" % rc.id], pre=["0 <= k < %d" % len(rc.wires)], meta={"site": rc.site, "case": rc.id}) for rc in cases.values()]
+    results, stats = xh.run(ls, ["from vlib import leafrt as R", "R.special_absent_cases()"], timeout=120 if tier == "thorough" else 45, label="c10a")
+    chk.ev.add_counts(xh.summarize(results))
+    chk.ev.coverage["solver_seconds"] += stats["cpu_s"]
+    chk.ev.coverage["absent_through_unions"] = {"contexts": len(cases), "members": sum(len(rc.wires) for rc in cases.values())}
+    for l in ls:
+        r = results[l.id]
+        rc = cases[l.meta["case"]]
+        if r.verdict == "inconclusive":
+            chk.inconc("%s: %s" % (l.meta["site"], r.message[:160]))
+        elif r.verdict == "refuted":
+            w = rc.wires[r.args["k"]]
+            j = leafrt.removal_json(rc, w)
+            code = (
+                "import json\nfrom lsprotocol import converters, types\nJ = json.loads(%r)\n"
+                "def replay():\n    c = converters.get_converter()\n    try:\n        c.structure(J, types.%s)\n    except Exception as e:\n        return (False, 'rejected with %%s although only the null-admitting / literal member %s is absent' %% type(e).__name__)\n"
+                "    return (True, 'accepted')\n"
+            ) % (__import__("json").dumps(j), rc.root_name, ".".join(str(x) for x in rc.path + [w]))
+            ok, detail = leafrt.run_code(code)
+            if not ok:
+                chk.violation("%s: %s" % (l.meta["site"], detail), {"kind": "python", "code": code, "site": l.meta["site"], "args": r.args})
+            else:
+                chk.harness_error("counterexample for %s did not reproduce" % l.id)
+
+
 def check(tier):
     chk = runner.Check("C10", tier)
     sat, cases = classlemmas.run_queries(chk, ["emit", "def"])
@@ -17,6 +49,7 @@ def check(tier):
                 classlemmas.replay_sat(chk, c, k, m)
     finally:
         classlemmas.set_variant(None)
+    absent_through_unions(chk, tier)
     chk.ev.coverage["converters_analysed"] = [classlemmas.VARIANTS[None]] + [classlemmas.VARIANTS[v] for v in variants]
     chk.ev.coverage["functions_encoded"] = [{"fn": "unstructure_<Class> and structure_<Class> (cattrs-generated from attrs.fields, _to_camel_case, _omit / is_special_property) for %d classes" % len(cases)}]
     chk.ev.coverage["bounds"] = {"attributes": "every attribute of every class simultaneously set/unset (all 2^n none-vectors), no bound", "values": "abstracted to {None, equals-default, other}"}
